@@ -108,7 +108,7 @@ def run_model(cases: List[Case], fuel: int = 3000, sem: bool = False, jobs: int 
             last = c.g
         cfg = c.cfg
         cur.append(f"C {c.cid} {cfg.root} {cfg.a} {cfg.m} {cfg.eol} {cfg.lazy} {cfg.unwind} "
-                   f"{c.init[0]} {c.init[1]} {c.init[2]} {hexs(c.data)}")
+                   f"{c.init[0]} {c.init[1]} {c.init[2]} {cfg.fam} {hexs(c.data)}")
         if sem:
             cur.append(f"SEM {c.cid} {cfg.root} {cfg.eol} {hexs(c.data)}")
         ncur += 1
@@ -186,7 +186,7 @@ int main() {''')
 class ImplResult:
     traces: Dict[str, Trace]
     compile_errors: List[str]
-    crashes: List[str]        # sanitizer reports / abnormal exits (stderr excerpts)
+    crashes: List[Tuple[Optional[str], str]]   # (case id or None, sanitizer report / abnormal exit excerpt)
     compile_s: float = 0.0
     run_s: float = 0.0
 
@@ -217,22 +217,47 @@ def run_impl(cases: List[Case], san: str = 'asan', per_tu: int = 8, jobs: int = 
         cp = subprocess.run([CXX] + cxx_flags(san) + [str(sp), '-o', str(ex)], capture_output=True, text=True)
         ct = time.time() - t0
         if cp.returncode != 0:
-            return ('cerr', f"tu{bi}: " + cp.stderr[:4000], ct, 0.0, '')
+            return ('cerr', [(None, f"tu{bi}: " + cp.stderr[:4000])], ct, 0.0, '')
         feed = []
         for g, _, cs in batch:
             for c in cs:
-                feed.append(f"{idx[(g.gid, c.cfg)]} {c.cid} {hexs(c.data)} {c.init[0]} {c.init[1]} {c.init[2]}")
+                feed.append((c.cid, f"{idx[(g.gid, c.cfg)]} {c.cid} {hexs(c.data)} {c.init[0]} {c.init[1]} {c.init[2]}"))
         t0 = time.time()
         env = dict(os.environ, ASAN_OPTIONS='detect_leaks=0:abort_on_error=0', UBSAN_OPTIONS='print_stacktrace=1')
-        try:
-            rp = subprocess.run([str(ex)], input="\n".join(feed) + "\n", capture_output=True, text=True,
-                                timeout=timeout, env=env)
-        except subprocess.TimeoutExpired as e:
-            return ('crash', f"tu{bi}: timeout", ct, time.time() - t0, (e.stdout or b'').decode() if isinstance(e.stdout, bytes) else (e.stdout or ''))
+        outs = []
+        crashes = []
+        start = 0
+        for _attempt in range(8):
+            chunk = feed[start:]
+            if not chunk:
+                break
+            try:
+                rp = subprocess.run([str(ex)], input="\n".join(l for _, l in chunk) + "\n", capture_output=True, text=True,
+                                    timeout=timeout, env=env)
+                out, err, rc = rp.stdout, rp.stderr, rp.returncode
+            except subprocess.TimeoutExpired as e:
+                out = (e.stdout or b'').decode() if isinstance(e.stdout, bytes) else (e.stdout or '')
+                err, rc = 'timeout', -9
+            outs.append(out)
+            if rc == 0:
+                break
+            # attribute the abort to the last announced case that has no END
+            last = None
+            for line in out.splitlines():
+                if line.startswith('CASE '):
+                    last = line[5:].strip()
+                elif line == 'END':
+                    last = None
+            if last is None:
+                crashes.append((None, f"tu{bi}: exit {rc}\n" + err[:3000]))
+                break
+            crashes.append((last, f"tu{bi}: exit {rc} in case {last}\n" + err[:3000]))
+            pos = next((k for k, (cid, _) in enumerate(feed) if cid == last), None)
+            if pos is None:
+                break
+            start = pos + 1
         rt = time.time() - t0
-        if rp.returncode != 0:
-            return ('crash', f"tu{bi}: exit {rp.returncode}\n" + rp.stderr[:6000], ct, rt, rp.stdout)
-        return ('ok', '', ct, rt, rp.stdout)
+        return ('crash' if crashes else 'ok', crashes, ct, rt, "".join(outs))
 
     res = ImplResult({}, [], [])
     with ThreadPoolExecutor(max_workers=jobs) as ex:
@@ -240,9 +265,9 @@ def run_impl(cases: List[Case], san: str = 'asan', per_tu: int = 8, jobs: int = 
             res.compile_s += ct
             res.run_s += rt
             if kind == 'cerr':
-                res.compile_errors.append(msg)
+                res.compile_errors.extend(m for _, m in msg)
             else:
                 if kind == 'crash':
-                    res.crashes.append(msg)
+                    res.crashes.extend(msg)
                 res.traces.update(parse_traces(out))
     return res
